@@ -61,6 +61,30 @@ def _check_own(ctx):
     check_ops(ctx, prog, R, eff, lookup)
 
 
+def _includes_is_some(ctx, prog, fn, lookup, eff):
+    """includes_key written without a branch: `lookup(..)?.is_some()` / `lookup(..).map(|o| o.is_some())`."""
+    ok_vals = []
+    for b, s in ret_agg_blocks(fn, "core::result::Result", "Ok"):
+        for o in origins(prog, fn, s["rhs"]["ops"][0], at=b):
+            ok_vals.append(o)
+    tr = [o for o in tracer(prog, fn).place({"l": 0, "p": ["?ok"]})] if not ok_vals else ok_vals
+    good = bool(tr)
+    for o in tr:
+        if not (o.kind == "call" and (o.data.get("callee") or "") in ("core::option::Option::<T>::is_some",) and o.data.get("args")):
+            good = False
+            break
+        a = origins(prog, fn, o.data["args"][0], at=o.block)
+        if not (a and all(is_call_to(prog, fn, x, lookup) and x.proj[:1] == ("?ok",) and len(x.proj) == 1 for x in a)):
+            good = False
+    if not good:
+        return False
+    bad = eff.may[fn.id] & set(WRITE_ROLES)
+    ctx.check(not bad, "op-wiring", "includes_key_kt:found:forbidden", "includes_key can reach %s" % sorted(bad), where=where(fn))
+    ctx.ok("op-wiring", "includes_key_kt:found:returns", "returns lookup(..).is_some()")
+    ctx.ok("op-wiring", "includes_key_kt:not-found:returns", "returns lookup(..).is_some()")
+    return True
+
+
 # --------------------------------------------------------------------------------------------
 def check_lookup(ctx, prog, R, fn):
     ctx.touch(fn, len(fn.blocks))
@@ -155,6 +179,9 @@ def check_ops(ctx, prog, R, eff, lookup):
                 ctx.check(hash_from_key(prog, fn, t["args"][1], 2), "hash-origin", "%s:%s" % (m, role),
                           "%s in %s uses a hash that is not hash_value() of the key parameter (wrong bucket)" % (role, m), where=where(fn, b))
         sp = lookup_split(prog, fn, lookup)
+        if not sp and m == "includes_key_kt" and _includes_is_some(ctx, prog, fn, lookup, eff):
+            n_arms += 2
+            continue
         if not ctx.check(len(sp) == 1, "op-wiring", m + ":split", "cannot find the unique match on the lookup result in %s (found %d)" % (m, len(sp)), where=where(fn)):
             continue
         _, some, none = sp[0]
